@@ -2382,13 +2382,21 @@ class Interp:
 
     def call_contract(self, c, recv, args, kwargs, n):
         from .contracts import apply_contract, bind_params
+        if self.spec and getattr(c, 'pure', False) and not c.modifies and not c.raises:
+            from .contracts import _pure_result
+            env = bind_params(self, c, recv, args, kwargs, n)
+            return _pure_result(self, c, env, c.key.split(':')[-1])
         if self.spec:
             # inside a contract/spec expression (e.g. under all()/any()): a pure function under contract
             # stands for its defining postcondition `result == <expr>` (the induction hypothesis on sub-terms)
-            first = c.clauses()[0][1] if c.clauses() else ''
-            node = ast.parse(first.strip(), mode='eval').body if first else None
-            if (c.modifies or c.raises or node is None or not isinstance(node, ast.Compare) or len(node.ops) != 1
-                    or not isinstance(node.ops[0], ast.Eq) or ast.unparse(node.left) != 'result'):
+            node = None
+            for _tag, clause in c.clauses():
+                cand = ast.parse(clause.strip(), mode='eval').body
+                if isinstance(cand, ast.Compare) and len(cand.ops) == 1 and isinstance(cand.ops[0], ast.Eq) \
+                        and ast.unparse(cand.left) == 'result':
+                    node = cand
+                    break
+            if c.modifies or c.raises or node is None:
                 self.oos(f'call of {c.key} inside a specification expression', n)
             env = bind_params(self, c, recv, args, kwargs, n)
             sub = Interp(self.p, None, env, spec=True, fname=f'<{c.key}>')
